@@ -430,6 +430,28 @@ def aten_getattr(interp, t: ATen, name):
                 return mk("rownorms", [t], [t.shape_l[0]], t.dtype, t.kind)
             raise Unsupported("norm dims")
         return _m(norm)
+    if name in ("max", "min"):
+        def mm(interp, dim=None):
+            if dim is None:
+                return mk(name + "_all", [t], [], t.dtype, t.kind, real=U(name + "_all_r", RealS, t.term))
+            sh = [x for i, x in enumerate(t.shape_l) if i != dim % max(1, t.rank)]
+            return (mk(name + "_dim_vals", [t, dim], sh, t.dtype, t.kind), mk(name + "_dim_idx", [t, dim], sh, U("int64", DtypeS), t.kind))
+        return _m(mm)
+    if name == "any":
+        def any_(interp, dim=None):
+            if dim is None:
+                r = t.method("any", shape=[])
+            else:
+                r = mk("any_dim", [t, dim], [x for i, x in enumerate(t.shape_l) if i != dim % max(1, t.rank)], t.dtype, t.kind)
+            r.boolean = True
+            return r
+        return _m(any_)
+    if name in ("new_zeros", "new_ones"):
+        return _m(lambda interp, *size, **k: mk(name[4:], _shape_arg(size[0] if len(size) == 1 else list(size)), _shape_arg(size[0] if len(size) == 1 else list(size)), t.dtype, t.kind))
+    if name in ("exp", "log", "sign", "neg", "square", "relu", "float", "double", "flatten", "tanh", "sigmoid"):
+        return _m(lambda interp: t.method(name))
+    if name == "clamp":
+        return _m(lambda interp, min=None, max=None: t.method("clamp", min, max))
     if name == "diag":
         return _m(lambda interp: p_diag(interp, t))
     if name == "unsqueeze":
@@ -603,6 +625,15 @@ def t_svd(interp, t, full_matrices=True):
             mk("svd_Vh", [t, fm], [n if fm else k, n], t.dtype))
 
 
+@prim("torch.linalg.svd.nofail")
+def t_svd_nofail(interp, t, full_matrices=True):
+    m, n = t.shape_l
+    k = U("min", IntS, lift(m), lift(n))
+    fm = full_matrices
+    return (mk("svd_U", [t, fm], [m, m if fm else k], t.dtype), mk("svd_S", [t], [k], t.dtype),
+            mk("svd_Vh", [t, fm], [n if fm else k, n], t.dtype))
+
+
 @prim("torch.svd")
 def t_svd_old(interp, t):
     m, n = t.shape_l
@@ -715,8 +746,7 @@ def t_stack(interp, xs, dim=0):
     e0 = s.get(I0)
     if isinstance(e0, ATen):
         body = e0.term if e0.real is None else U("scalar", ArrS, e0.real)
-        lam = z3.Lambda([I0], body)
-        term = U("stack_lam", ArrS, lift(s.length), lam)
+        term = U("stack_lam", ArrS, lift(s.length), body)
         return ATen(term, [s.length] + e0.shape_l, e0.dtype)
     from .lten import l_stack
     return l_stack(interp, xs, dim)
@@ -765,8 +795,8 @@ def n_apply_along_axis(interp, fn, axis=None, arr=None):
         I0 = z3.Int("I0!canon")
         row = mk("row", [arr, I0], [arr.shape_l[1]], arr.dtype, arr.kind)
         out = _opt_unwrap(interp.call(fn, [row]))
-        lam = z3.Lambda([I0], out.term)
-        return ATen(U("rows_lam", ArrS, lift(arr.shape_l[0]), lam), [arr.shape_l[0]] + out.shape_l, out.dtype, out.kind)
+        # the canonical index I0 stays free in the body term: two such terms are equal iff their bodies are
+        return ATen(U("rows_lam", ArrS, lift(arr.shape_l[0]), out.term), [arr.shape_l[0]] + out.shape_l, out.dtype, out.kind)
     raise Unsupported("apply_along_axis rank")
 
 
